@@ -16,7 +16,7 @@ pub struct C17Check;
 pub static C17: C17Check = C17Check;
 
 pub const HOSTED: Alphabet = Alphabet {
-    leaves: &[("Identifier", "a"), ("Identifier", "b"), ("Identifier", "f"), ("Identifier", "g"), ("Identifier", "k"), ("Number", "1"), ("Value", "$")],
+    leaves: &[("Identifier", "a"), ("Identifier", "b"), ("Identifier", "f"), ("Identifier", "g"), ("Identifier", "k"), ("Number", "1"), ("Value", "$"), ("True", "$?"), ("Unit", "()")],
     unary: &["EmptyApply", "NestedExpression", "Not"],
     binary: &["Apply", "ApplyTo", "JumpIfTrue", "ElseJump", "And", "Or", "Pair", "List", "Addition", "ExpressionSeparator", "BlockBefore", "BlockAfter"],
 };
@@ -117,7 +117,7 @@ impl Check for C17Check {
         "C17"
     }
     fn rule(&self) -> String {
-        "Phase exhaustive: every AST with at most k nodes (k=5 quick, 6 thorough) over identifiers a, b (unknown to the input), f, g (bound to External values in the input), k (bound to a number in the input), `1`, `$` and the constructs `~~`, `{ }`, `!!`, `<~`, `~>`, `?>`, `|>`, `&&`, `||`, `=`, space list, `+`, `;`, a side-effect block before or after a value, \
+        "Phase exhaustive: every AST with at most k nodes (k=5 quick, 6 thorough) over identifiers a, b (unknown to the input), f, g (bound to External values in the input), k (bound to a number in the input), `1`, `$`, `$?`, `()` and the constructs `~~`, `{ }`, `!!`, `<~`, `~>`, `?>`, `|>`, `&&`, `||`, `=`, space list, `+`, `;`, a side-effect block before or after a value, \
          run with the input (:k = 3, :f = external 7, :g = external 8) (ASTs of up to 4 nodes also with the same associations as a concatenation nested to the right) under 4 scripted recording hosts (resolving none / some / all identifiers, answering external 7 only / both / none) on both data implementations (programs of up to 9 tokens also on a clone_with_aux_without_data copy of the SimpleGarnishData they were built into); phase random: larger core-language ASTs with identifiers in every position, inputs of C01, spaced and tight layout. \
          Oracle: the host's call trace (resolve(symbol) and, on BasicGarnishData, apply(external, argument read back)) equals the reference evaluator's event trace in order and multiplicity — input lookup first, one resolve per evaluated unresolved occurrence, one apply per applied external — and the final value equals the reference value (declined => unit, accepted => exactly the host's value). \
          Non-trivial = judged program with >= 2 identifier occurrences, >= 2 reference host events under some host and at least one identifier answered from the input; distinct = distinct (AST, input)."
